@@ -2,6 +2,8 @@ import PdfModel.Lemmas.ContentInst
 import PdfModel.Lemmas.ContentTable
 import PdfModel.Lemmas.ContentF32
 import PdfModel.Lemmas.ContentInline
+import PdfModel.Lemmas.ContentBytesCompose
+import PdfModel.Lemmas.ContentBytesInst
 
 /-!
 # C08 — content-stream operators round-trip and mean what the operator table says
@@ -27,6 +29,7 @@ package repaired in primitive.rs); the check detects it on the tree under test a
 
 namespace Content
 open ContentSpec
+open PdfSyntax (Gap)
 
 section
 variable {R : Type} (ro : RealOps R)
@@ -221,6 +224,62 @@ theorem parse_compositional (allow : Bool) (c : PCfg R) (ts us : List (Tok R)) (
 end
 
 -- ---------------------------------------------------------------------------------------------------
+-- lexical composition (L2): bytes written by `serialize_ops`, read by the loop of `OpBuilder::parse`
+
+section
+open ContentBytes ContentSyntax
+variable {R : Type} (ro : RealOps R)
+
+/-- **Any conformant spelling of a content stream reads as its tokens** (the reader half of the lexical
+    composition, at the strength of C03): whatever white-space, comments and omitted separators lie between the
+    tokens and whichever spelling each operand has (`SpellsToks`), the byte-level loop of `OpBuilder::parse`
+    (`parse_with_lexer` until it fails, then `lexer.next()` as operator; shared lexer / parser models of C03/C04)
+    returns what the token-level reader returns on the token sequence — in strict and in tolerant mode, errors
+    included.  `PrimRT`: operands are values of the Rust types nested within `MAX_DEPTH`; `EofFacts`: the two facts
+    about `PdfError::is_eof` that the parser model does not carry. -/
+theorem parse_any_spelling (env : PdfLex.Env R) (hd : env.decrypt = none) (o : Oracle) (ho : EofFacts o) (allow : Bool)
+    (toks : List (Tok R)) (data : List UInt8) (hsp : SpellsToks env.parseReal toks data)
+    (hp : ∀ p ∈ primsOf toks, PrimRT p) (hsz : data.length ≤ 2147483647) :
+    parseBytes ro env o allow data = parseOps ro allow toks := by
+  have hlen := spellsToks_length hsp
+  have hloop := bytesLoop_spells ro env hd o ho allow toks data hsp hp (buf := data.toArray) (by simpa using hsz) 0
+    ⟨initState ro, []⟩ (data.toArray.size + 1) (PdfLex.suffix_zero data) (by simp; omega)
+  unfold parseBytes parseOps
+  simp only [hloop]
+  cases parseLoop ro allow ⟨initState ro, []⟩ toks <;> rfl
+
+/-- **Lexical composition, round trip on bytes (L2).**  For every sequence of operations the serializer accepts
+    (`OpV`: finite reals, `Primitive` operands that are values of the Rust types nested within `MAX_DEPTH`, no inline
+    image; names any strings, strings any bytes): `serialize_ops` succeeds, and the loop of `OpBuilder::parse` on the
+    bytes written — the `Real` formatting, names through `serialize_name` (`#xx`), strings (literal with escapes or
+    hexadecimal), arrays and dictionaries through `Primitive::serialize`, one space after every operand, a line feed
+    after every operator — returns the original sequence with numeric equality on reals, in both modes.
+    Composition of `parse_serialize_ops` (token level) with the operand round trip of C04 (`serialize_spells`,
+    `parseCtx_spells`) and the lexer's token-boundary lemmas.  Hypotheses on third-party code: `RealLaws`
+    (as before) and `FmtLaws` (`Display for f32` / `f32::from_str` agree with the real-number interface). -/
+theorem parse_serialize_bytes (laws : RealLaws ro) (env : PdfLex.Env R) (hd : env.decrypt = none)
+    (fmt : R → List UInt8) (fl : FmtLaws ro fmt env.parseReal) (o : Oracle) (ho : EofFacts o) (allow : Bool)
+    (ops : List (Op R)) (hv : ∀ op ∈ ops, OpV ro op) :
+    ∃ bytes, serializeBytes ro fmt ops = .ok bytes ∧
+      (bytes.length ≤ 2147483647 →
+        ∃ ops', parseBytes ro env o allow bytes = .ok ops' ∧ opsEquiv ro ops' ops = true) := by
+  obtain ⟨toks, bytes, h1, h2, h3, h4⟩ :=
+    serBytes_spells ro fmt env.parseReal fl ops.length ops ⟨none, none⟩ (Nat.le_refl _) hv
+  refine ⟨bytes, h2, fun hsz => ?_⟩
+  obtain ⟨toks', ops', h5, h6, h7⟩ := parse_serialize_ops ro laws ⟨true⟩ allow ops (fun o ho => (hv o ho).1)
+    (fun o ho => opV_accepted ro (hv o ho))
+  have : toks' = toks := by
+    unfold serializeOps at h5
+    rw [h1] at h5
+    cases h5; rfl
+  subst this
+  refine ⟨ops', ?_, h7⟩
+  rw [parse_any_spelling ro env hd o ho allow toks' bytes (by simpa using h3 [] Gap.nil) h4 hsz]
+  exact h6
+
+end
+
+-- ---------------------------------------------------------------------------------------------------
 -- byte level of the inline-image construct: where the image data ends (open finding)
 
 open ContentInline in
@@ -323,5 +382,60 @@ example : parseOps intOps true [.prim (.int 1), .kw "'", .prim (.int 7), .prim (
 
 example : parseOps intOps false [.prim (.int 1), .kw "'", .prim (.int 7), .kw "w"] = .err := by
   rfl
+
+
+-- non-vacuity of the lexical composition
+
+section
+open ContentBytes ContentSyntax
+
+/-- operations whose names hold a space, `#`, a non-ASCII character and a solidus, whose strings hold a parenthesis, a
+    CR, a backslash and a byte ≥ 128, with a real ≥ 2^31, a dictionary operand and every kind of array -/
+def demoBytesOps : List (Op Int) := [
+  .moveTo ⟨0, 0⟩, .curveTo ⟨0, 0⟩ ⟨1, 1⟩ ⟨2, 2⟩, .close, .stroke,
+  .textFont "F 1#é" 12, .textNewline, .textDraw [40, 13, 92, 200], .lineWidth 3000000000,
+  .beginMarkedContent "Span" (some (.dict ["MCID", "K y"] [.int 3, .arr [.real 2, .name "a/b"]])),
+  .fillColor (.other [.real 1, .name "P 0"]), .dash [1, 2] 0, .textDraw [40, 13, 92],
+  .textDrawAdjusted [.text [65], .spacing (-7)]]
+
+theorem demoBytesOps_valid : ∀ op ∈ demoBytesOps, OpV intOps op := by
+  intro op hop
+  simp only [demoBytesOps, List.mem_cons, List.mem_nil_iff, or_false] at hop
+  rcases hop with rfl | rfl | rfl | rfl | rfl | rfl | rfl | rfl | rfl | rfl | rfl | rfl | rfl <;>
+    refine ⟨by decide, ?_⟩ <;>
+    simp [ColorV, PrimV, PrimVL, finiteR, intOps, toLex, toLexL, toLexE, PdfSyntax.vdepth, PdfSyntax.vdepthL,
+      PdfSyntax.vdepthE, PdfLex.maxDepth] <;> decide
+
+/-- the bytes the model writes for them: `#xx` in names, `\r` and hexadecimal strings, `3000000000.`, a
+    dictionary as `Primitive::serialize` writes it -/
+example : (match serializeBytes intOps PdfLex.fmtInt demoBytesOps with
+    | .ok b => b == ("0 0 m\n1 1 2 2 v\ns\n/F#201#23#c3#a9 12 Tf\n<280d5cc8> '\n3000000000. w\n" ++
+        "/Span <<\n/MCID 3\n/K#20y [2. /a#2fb]\n>>\n BDC\n1. /P#200 scn\n[1 2] 0 d\n(\\(\\r\\\\) Tj\n[(A) -7] TJ\n").toUTF8.data.toList
+    | _ => false) = true := by
+  decide +kernel
+
+/-- and the byte-level loop reads them back (both modes, the driver's oracle) -/
+example (allow : Bool) : ∃ bytes ops', serializeBytes intOps PdfLex.fmtInt demoBytesOps = .ok bytes ∧
+    parseBytes intOps intEnv (lexOracle fun _ _ => .err) allow bytes = .ok ops' ∧
+    opsEquiv intOps ops' demoBytesOps = true := by
+  obtain ⟨bytes, h1, h2⟩ := parse_serialize_bytes intOps intLaws intEnv rfl PdfLex.fmtInt intFmtLaws
+    (lexOracle fun _ _ => .err) (lexOracle_facts _) allow demoBytesOps demoBytesOps_valid
+  have hlen : bytes.length ≤ 2147483647 := by
+    have e : (match serializeBytes intOps PdfLex.fmtInt demoBytesOps with
+      | .ok b => decide (b.length ≤ 2147483647) | _ => false) = true := by decide +kernel
+    rw [h1] at e
+    simpa using e
+  obtain ⟨ops', h3, h4⟩ := h2 hlen
+  exact ⟨bytes, ops', h1, h3, h4⟩
+
+/-- a layout the writer never produces — no separators where none are needed, comments, a `#xx` name, an octal
+    escape — is a spelling too, and reads as its tokens: `[1 2]0 d%c⏎/A#20B<41>Tj(\101)'` -/
+example : (match parseBytes intOps intEnv (lexOracle fun _ _ => .err) false
+      "[1 2]0 d%c\n/A#20B gs<41>Tj(\\101)'".toUTF8.data.toList with
+    | .ok ops => opsEquiv intOps ops [.dash [1, 2] 0, .graphicsState "A B", .textDraw [65], .textNewline, .textDraw [65]]
+    | _ => false) = true := by
+  decide +kernel
+
+end
 
 end Content
